@@ -1083,7 +1083,9 @@ def main(run):
                 guard(lambda: t.height)
                 r = guard(gp.compile, t, spec.pset)
                 if r[0] == "ok" and spec.nargs > 0 and callable(r[1]):
-                    kept.append((list(t), r[1]))
+                    # snapshot: ephemeral node objects are copied, because the "ephvalue" step below changes node.value in place
+                    # and the reference value must be that of the tree as it was when it was compiled
+                    kept.append(([copy.copy(n) if isinstance(type(n), gp.MetaEphemeral) else n for n in t], r[1]))
                     kept[:] = kept[-4:]
                 kind = rng.choice(["mutShrink", "mutInsert", "mutNodeReplacement", "mutEphemeral", "mutUniform", "cx", "ephvalue",
                                    "setterm", "setslice", "deepcopy", "listops"])
